@@ -147,6 +147,16 @@ use std::collections::BTreeSet;
 
 /// One run in five of a MAC-world property borrows the generator of another MAC-world property (all use the
 /// same case type). The foreign generator is called with a run index far beyond its systematic part.
+/// The radio failed before the operation's frame was handed over (a radio call that precedes `tx()`, e.g. a device
+/// that first puts the radio to rest): the call ended in the radio error and no frame reached the radio. Whether the
+/// device accounts for such an uplink (counter, queued answers, owed ACK) is left open by every statement.
+pub fn aborted_before_tx(w: &World, rec: &OpRecord) -> bool {
+    // (the call may also end in SessionExpired when accounting for the aborted uplink exhausts the counter space)
+    matches!(rec.op, crate::script::Op::Send { .. } | crate::script::Op::Join(_))
+        && tx_events(w, rec).is_empty()
+        && w.env.borrow().trace[rec.trace_lo..rec.trace_hi].iter().any(|ev| matches!(ev, Ev::Fault { .. }))
+}
+
 /// Properties whose oracle judges histories in which the application abandons a `join()` / `send()` half-way.
 pub const CANCEL_AWARE: &[&str] = &["C04", "C09", "C10"];
 
